@@ -60,14 +60,14 @@ pub enum Type {
     ),
 }
 impl Type {
-    /// Returns `None` if this type is unresolved
+    /// Returns `None` if this type is unresolved, or if its size does not fit in a `usize`
     pub(crate) fn size(&self, type_registry: &type_registry::TypeRegistry) -> Option<usize> {
         match self {
             Type::Unresolved(_) => None,
             Type::Raw(path) => type_registry.get(path).and_then(|t| t.size()),
             Type::ConstPointer(_) => Some(type_registry.pointer_size()),
             Type::MutPointer(_) => Some(type_registry.pointer_size()),
-            Type::Array(tr, count) => tr.size(type_registry).map(|s| s * count),
+            Type::Array(tr, count) => tr.size(type_registry)?.checked_mul(*count),
             Type::Function(_, _, _) => Some(type_registry.pointer_size()),
         }
     }
